@@ -16,8 +16,8 @@
 use std::sync::Mutex;
 
 use roto::{
-    Constant, FileTree, Function, Impl, Item, Library, Module, NoCtx, Runtime, Type, Use, Val, Value, library,
-    location,
+    Constant, FileTree, Function, Impl, Item, Library, Module, NoCtx, Registerable, Runtime, Type, Use, Val, Value,
+    library, location,
 };
 use rvh::batch::{Progress, parse_args, run_batch};
 use serde_json::{Value as J, json};
@@ -294,6 +294,45 @@ fn macro_lib(shape: &str) -> Library {
     }
 }
 
+// `use` items inside library!: one compiled `library! { use <tree>; }` per use tree that TLC enumerates
+// from the grammar of spec/MCRegistration.tla (generated by tools/gen_c18_usetrees.py)
+include!("../tables/c18_usetrees.rs");
+
+/// The module world the use trees refer to (UseWorld of spec/MCRegistration.tla): namesakes at every
+/// level, every function returns its own tag.
+fn use_world() -> Library {
+    library! {
+        mod a {
+            fn d() -> i32 { 200 }
+            fn e() -> i32 { 300 }
+            mod b {
+                fn c() -> i32 { 500 }
+                fn d() -> i32 { 600 }
+                mod q {
+                    fn d() -> i32 { 1000 }
+                    fn r() -> i32 { 1100 }
+                }
+            }
+            mod p {
+                fn d() -> i32 { 1200 }
+                fn s() -> i32 { 1300 }
+            }
+        }
+        fn z() -> i32 { 100 }
+    }
+}
+
+/// world + `library! { use <tree>; }` for the tree with the given source text
+fn use_tree_library(tree: &str) -> Library {
+    let i = USE_TREES
+        .iter()
+        .position(|t| *t == tree)
+        .unwrap_or_else(|| panic!("harness: use tree `{tree}` is not in tables/c18_usetrees.rs (run tools/gen_c18_usetrees.py)"));
+    let mut lib = use_world();
+    use_tree_lib(i).add_to_lib(&mut lib);
+    lib
+}
+
 // ---------------------------------------------------------------- probing
 
 fn dotted(path: &[String]) -> String {
@@ -475,6 +514,7 @@ fn run_probes(rt: &Runtime<NoCtx>, probes: &[J], tys: &J) -> Vec<J> {
 /// With `from_lib` the runtime is created by `Runtime::from_lib(lib)` instead of `new()` + `add(lib)`.
 fn do_add(rt: &mut Runtime<NoCtx>, add: &J, from_lib: bool) -> J {
     let built: Result<RegRes<Library>, J> = guarded(|| match add.get("macro").and_then(|m| m.as_str()) {
+        Some("usetree") => Ok(use_tree_library(add["tree"].as_str().unwrap())),
         Some(shape) => Ok(macro_lib(shape)),
         None => build_lib(&add["lib"]),
     });
@@ -685,8 +725,26 @@ impl Gen<'_> {
                 self.new_known.push(Known { path: p, kind: "mod", ps: vec![], r: 0, ty: 0 });
                 out.push(it);
             } else if roll < 40 && (!self.to_place.is_empty() || (self.defects && self.rng.chance(10))) {
-                let ty = if self.to_place.is_empty() { 1 + self.rng.below(4) as i64 } else { self.to_place.remove(0) };
-                let (name, cls) = self.fresh("T", &siblings);
+                let mut ty = if self.to_place.is_empty() { 1 + self.rng.below(4) as i64 } else { self.to_place.remove(0) };
+                let (mut name, mut cls) = self.fresh("T", &siblings);
+                // sometimes: the identifier (and usually the Rust type) of a type that is already
+                // registered somewhere else - a second registration of one Rust type in another scope
+                let olds: Vec<Known> =
+                    self.w.known.iter().chain(self.new_known.iter()).filter(|k| k.kind == "type").cloned().collect();
+                if self.defects && !olds.is_empty() && self.rng.chance(25) {
+                    let old = self.rng.pick(&olds).clone();
+                    let n = old.path.last().unwrap().clone();
+                    if !PRIMS.contains(&n.as_str()) {
+                        if self.rng.chance(70) {
+                            if ty != old.ty && !self.to_place.contains(&ty) && !self.new_types.contains_key(&ty) {
+                                self.to_place.push(ty);
+                            }
+                            ty = old.ty;
+                        }
+                        cls = if n.is_ascii() { "ascii".into() } else { "nonascii".into() };
+                        name = n;
+                    }
+                }
                 let mut it = item("type", &name, &cls);
                 it["ty"] = json!(ty);
                 it["mov"] = json!(if self.rng.chance(50) { "copy" } else { "clone" });
